@@ -535,4 +535,27 @@ theorem search_fuel_irrelevant (q : UInt8 → Bool) (rest : Bytes) (cs : CaseSen
     searchLoop rest cs (memchrBy q) fuel hay = search hay rest cs (memchrBy q) := by
   rw [search, searchLoop_eq _ _ _ _ _ hf, searchLoop_eq _ _ _ _ _ (Nat.lt_succ_self _)]
 
+/-! ### the matcher object: `find`, `get_value` -/
+
+theorem find_lowercased (m : AttributeMatcher) (key : Bytes) :
+    m.find (makeAsciiLowercase key) =
+      m.attributes.find? (fun a => a.1.map lower == key.map lower) := by
+  unfold AttributeMatcher.find makeAsciiLowercase
+  congr 1
+  funext a
+  rw [map_lower_eq, map_lower_eq]
+  by_cases hl : a.1.length = key.length
+  · simp [hl]
+  · have hne : ¬ a.1.map toAsciiLowercase = key.map toAsciiLowercase := by
+      intro h; apply hl; simpa using congrArg List.length h
+    simp [hl, hne]
+
+theorem getValue_lowercased (m : AttributeMatcher) (key : Bytes) :
+    m.getValue (makeAsciiLowercase key) = firstAttr m.attributes key := by
+  unfold AttributeMatcher.getValue firstAttr
+  rw [find_lowercased]
+
+theorem idAttr_lower : makeAsciiLowercase idAttr = idAttr := by decide
+theorem classAttr_lower : makeAsciiLowercase classAttr = classAttr := by decide
+
 end LolHtml.Lemmas.AttrMatch
